@@ -305,6 +305,7 @@ class LoopSpec:
     invariant: Callable[[Any], dict[str, Any]] | None = None
     appends: dict[str, Any] = field(default_factory=dict)   # list local -> Sort of the one element each iteration appends
     after_each: Callable[[Any], dict[str, Any]] | None = None   # invariant loops: holds at the end of every iteration (proved there, not assumed at the head)
+    elem: Any = None      # invariant loops over a row list of unknown length: Sort of one element
     local_sorts: dict[str, Any] = field(default_factory=dict)   # invariant loops: Sort of a havoced local whose value changes kind (None -> object)
     extends: list[str] = field(default_factory=list)        # invariant loops: row lists that only ever grow (old items + unknown rest)
 
